@@ -493,6 +493,18 @@ func bodies(k *keys, rng *rand.Rand, nextID func() uint32, peerPort uint16, with
 			m.Servers = append(m.Servers, refenc.AuthServer{Pub: refenc.GenKey(rng).Pub, Location: strings.Repeat("b", 255), HTTP: 65535, TCP: 0, UDP: 1, Banned: i == 1}.Signed(newGCA.Priv))
 		}
 	})
+	// new-server entries whose location does not fit the one-byte length of the wire layout, in orders
+	// with and without valid signatures (the handler sees them before anything has been checked)
+	for _, n := range []int{256, 257, 511, 70000} {
+		n := n
+		mkMig(fmt.Sprintf("loc%d", n), func(m *refenc.Migration) {
+			m.Equipment = k.A.Key.Pub
+			m.Servers = []refenc.AuthServer{refenc.AuthServer{Pub: refenc.GenKey(rng).Pub, Location: strings.Repeat("c", n), HTTP: 1, TCP: 2, UDP: 3}.Signed(newGCA.Priv)}
+		})
+		um := plainMig
+		um.Servers = []refenc.AuthServer{{Pub: inner.Pub, Location: strings.Repeat("d", n), HTTP: 1}}
+		add(fmt.Sprintf("unsigned.migration.loc%d", n), um.JSON())
+	}
 	return out
 }
 
